@@ -80,17 +80,23 @@ def check_bed(res, kind, exons, strand, cds, window, chrom_mode, menu, N, order=
         if cds:
             cds_blocks = F.cds_blocks_for(exons, strand, cds[0], cds[1])
             frames = F.consistent_frames_plus_order(cds_blocks, strand, 0)
-            obj = lib.mk_tx(exons, strand, cds_blocks, frames, parent, order=order, sequence_name="chrV", transcript_symbol="sym", transcript_id="tid")
+            mk_ = lambda: lib.mk_tx(exons, strand, cds_blocks, frames, parent, order=order, sequence_name="chrV", transcript_symbol="sym", transcript_id="tid")
         else:
-            obj = lib.mk_tx(exons, strand, parent=parent, order=order, sequence_name="chrV", transcript_symbol="sym", transcript_id="tid")
+            mk_ = lambda: lib.mk_tx(exons, strand, parent=parent, order=order, sequence_name="chrV", transcript_symbol="sym", transcript_id="tid")
         exp_name = {"transcript_symbol": "sym", "transcript_id": "tid", "free text": "free text"}[name_arg]
     else:
-        obj = lib.mk_feat(exons, strand, parent, order=order, sequence_name="chrV", feature_name="sym", feature_id="tid")
+        mk_ = lambda: lib.mk_feat(exons, strand, parent, order=order, sequence_name="chrV", feature_name="sym", feature_id="tid")
         exp_name = {"transcript_symbol": "transcript_symbol", "transcript_id": "transcript_id", "free text": "free text"}[name_arg]
         if name_arg == "transcript_symbol":
             name_arg, exp_name = "feature_name", "sym"
         elif name_arg == "transcript_id":
             name_arg, exp_name = "feature_id", "tid"
+    oc_ = lib.outcome(mk_)
+    if oc_[0] != "ok":
+        # (every interval of the world is valid, in whatever order its blocks are listed)
+        res.deviation("constructor", case, oc_[1], "object", sig="ctor-raises")
+        return
+    obj = oc_[1]
     if shared is not None:
         from inscripta.biocantor.gene import GeneInterval, FeatureIntervalCollection
 
